@@ -8,6 +8,9 @@
   op 5  cmsg build        capacity, messages
   op 6  cmsg round trip   capacity, messages
   op 7  cmsg iterate      wanted size, buffer bytes
+  op 8  sink program      framer, ops (feed/send item, flush, close), writer script; the codec fails on
+                          flagged items after having written k bytes of them
+  op 9  decode            like op 2, with a decoder that rejects frames starting with 255
 
 Short streams are cut at every point (one case per cut) and byte by byte;
 longer ones get random fragmentations.  About a third of the inputs are
@@ -193,9 +196,90 @@ def hostile_stream(rng, fr):
     return b
 
 
+def frame_bytes(fr, p):
+    if fr[0] == 1:
+        hdr = le(len(p) % (1 << (8 * fr[1])), fr[1])
+        return (hdr[::-1] if fr[2] else hdr) + p
+    if fr[0] in (2, 3):
+        return p + delim_of(fr)
+    return p
+
+
+def wsched(rng, total, nframes, adversarial):
+    """writer script: (0,n) accept <= n, (1,kind) error (3 = Interrupted, retried), (2,0) Pending"""
+    s = []
+    left = total
+    while left > 0 and len(s) < 60:
+        r = rng.random()
+        if r < 0.12:
+            s.append((2, 0))
+            continue
+        if r < 0.2:
+            s.append((1, 3))
+            continue
+        if adversarial and r < 0.3:
+            s.append((1, rng.choice(ERR_KINDS)))
+            continue
+        if adversarial and r < 0.36:
+            s.append((0, 0))
+            continue
+        n = rng.choice([1, 1, 2, 3, 5, 8, 64, 1000])
+        s.append((0, n))
+        left -= n
+    if not adversarial or rng.random() < 0.5:
+        s += [(0, 1000)] * (nframes + 1)
+    return s
+
+
+def gen_sink(rng):
+    fr = gen_framer(rng)
+    adversarial = rng.random() < 0.3
+    ops, total, nframes = [], 0, 0
+    for _ in range(rng.choice([1, 2, 3, 3, 4, 5, 6, 8])):
+        r = rng.random()
+        if r < 0.75:
+            p = payload(rng, fr, True)
+            if rng.random() < 0.4:
+                k = rng.choice([0, 1, len(p) // 2, max(0, len(p) - 1), len(p), len(p) + 3])
+                item = [1, k] + lp(p)
+            else:
+                item = [0, 0] + lp(p)
+                total += len(frame_bytes(fr, p))
+                nframes += 1
+            ops.append([1 if r < 0.3 else 2] + item)
+        elif r < 0.92:
+            ops.append([3])
+        else:
+            ops.append([4])
+    out = [8] + fr + [len(ops)]
+    for o in ops:
+        out += o
+    return out + enc_sched(wsched(rng, total, nframes, adversarial))
+
+
+def gen_probe_decode(rng):
+    fr = gen_framer(rng)
+    fs = frames(rng, fr, True)
+    for f in fs:
+        if f and rng.random() < 0.4:
+            f[0] = 255
+            d = delim_of(fr)
+            if d and find(d, f + d) != len(f):
+                f[0] = 254
+    b = []
+    for f in fs:
+        b += frame_bytes(fr, f)
+    return [9] + fr + enc_sched(sched_random(rng, len(b), rng.random() < 0.3)) + b
+
+
 def gen_case(rng, pending):
     if pending:
         return pending.pop()
+    q = rng.random()
+    if q < 0.09:
+        return gen_sink(rng)
+    if q < 0.12:
+        return gen_probe_decode(rng)
     r = rng.random()
     if r < 0.06:
         fr = gen_framer(rng)
@@ -259,14 +343,15 @@ def generate(seed, n):
 
 
 OPS = {1: "encode", 2: "decode-hostile-stream", 3: "roundtrip", 4: "extract-hostile",
-       5: "cmsg-build", 6: "cmsg-roundtrip", 7: "cmsg-iterate"}
+       5: "cmsg-build", 6: "cmsg-roundtrip", 7: "cmsg-iterate", 8: "sink-failing-codec",
+       9: "decode-failing-decoder"}
 FRS = {1: "len", 2: "any", 3: "char", 4: "noop"}
 
 
 def describe(case):
     op = case[0] if case else -1
     name = OPS.get(op, "op%d" % op)
-    if op in (1, 2, 3, 4) and len(case) > 1:
+    if op in (1, 2, 3, 4, 8, 9) and len(case) > 1:
         name += ":" + FRS.get(case[1], "?")
         if case[1] == 1 and len(case) > 2:
             name += str(case[2])
